@@ -22,9 +22,9 @@ import (
 )
 
 type MMember struct {
-	StartMs   int
-	LifeMs    int
-	Behaviour []string // per Consume round
+	StartMs    int
+	LifeMs     int
+	Behaviour  []string // per Consume round
 	EarlyAfter []int
 }
 
@@ -115,12 +115,12 @@ func (sc *MScenario) String() string {
 }
 
 type MResult struct {
-	Sc     *MScenario
-	Events []HEvent
-	Reqs   []sarama.VerifSimGroupReq
-	NewErr string
-	Hang   string
-	Panic  string
+	Sc        *MScenario
+	Events    []HEvent
+	Reqs      []sarama.VerifSimGroupReq
+	NewErr    string
+	Hang      string
+	Panic     string
 	Life      []string
 	LifePanic []string
 }
@@ -281,7 +281,9 @@ func whoOfClient(c string) int {
 // CheckMulti evaluates the C07 / C12 oracles of a multi-member scenario.
 func CheckMulti(res *MResult) []Fail {
 	var fails []Fail
-	add := func(sig, format string, a ...interface{}) { fails = append(fails, Fail{sig, fmt.Sprintf(format, a...)}) }
+	add := func(sig, format string, a ...interface{}) {
+		fails = append(fails, Fail{sig, fmt.Sprintf(format, a...)})
+	}
 	sc := res.Sc
 	if res.NewErr != "" {
 		return nil
